@@ -4,7 +4,7 @@ from .. import core, gen, ref
 from . import cu
 
 MODULES = ['DsdVerif.Props.C20', 'DsdVerif.Props.PyLegacy2', 'DsdVerif.Props.PyLegacyReg']
-GEN_FILES = ['LegacyIupac', 'IupacTables', 'LegacyWrappers', 'PyLegacy', 'PyLegacyReg', 'PyFuncs']
+GEN_FILES = ['LegacyIupac', 'IupacTables', 'LegacyWrappers', 'PyLegacy', 'PyLegacyReg', 'PyLegacyInit', 'PyFuncs']
 THEOREM_NAMES = ['legacy_iupac_agree_dna', 'legacy_iupac_agree_rna', 'legacy_wobble_total']
 THEOREMS = ['Dsd.C20.' + t for t in THEOREM_NAMES] + ['Dsd.C20L.' + t for t in ('legacy_canon_eq', 'legacy_rotations_spec', 'legacy_dup_iff')] + \
     ['Dsd.C20.legacy_wrappers_delegate', 'Dsd.C20F.legacy_rotate_once_eq', 'Dsd.C20F.legacy_construct_eq',
@@ -301,6 +301,9 @@ def run(res, proof):
     source_derived_pylegacy(res, proof)
     from .pylegacyreg_stream import source_derived_pylegacyreg
     source_derived_pylegacyreg(res, proof)
+    # the whole legacy constructor as translated from the working tree (Gen/PyLegacyInit.lean; no equality theorem yet): ID / NAMES / MEMORY after every construction
+    from .pylegacyinit_stream import source_derived_pylegacyinit
+    source_derived_pylegacyinit(res, proof)
     res.sample({'seq': 'a b + a', 'sst': '(.+)'})
 
 
